@@ -13,7 +13,7 @@ TRUSTED = [
     "Coq 8.16.1 kernel; theorems closed under the global context",
     "translators: tools/translate_games.py pre (regex over the game_query_mod! invocations and the default-port / engine literals of the hand-written modules) and post (the GAMES static as serialised by the built crate's own serde derives: macro expansion and constants are the compiler's); both regenerate Gen/*.v on every run",
     "Model/Dispatch.v is a hand-written model of games/query.rs and of the game_query_fn! wrappers; it is tied to the code by running, for every game of the table, the three generic entry points, the dedicated module and the protocol function with the definition's parameters under the same scripted server and comparing destination, request bytes and results (family 14); the generic path is also compared with the model's own run for Valve, Quake and Unreal 2 games",
-    "the step from 'same call up to an unchecked, not special-cased app id' to 'same behaviour' (used by armareforger only) is covered by the correspondence, not by a theorem",
+    "the step from 'same call up to an unchecked, not special-cased app id' to 'same behaviour' (used by armareforger only) is a theorem (c14_engines_agree_same_run) about the Valve model",
     "Eco and Minetest (HTTP through ureq) are outside the scripted transport: only the table-level statement covers them",
     "server behaviours for Minecraft and the proprietary UDP protocols are silence and malformed replies until those protocols have reply generators (C03, C07)",
 ]
